@@ -91,7 +91,7 @@ Section Chains.
   Proof. repeat split; vm_compute; reflexivity. Qed.
 End Chains.
 
-(* ---- ValuesLookTheSame ignores the typeof-identifier mark (known finding P) ---------- *)
+(* ---- ValuesLookTheSame and the typeof-identifier mark (finding P, fixed by 71e396b) ---------- *)
 Section TypeofMark.
   (* a world where the identifier 1000 is not declared and does not exist, and the
      declared identifier 1 is falsy *)
@@ -112,18 +112,15 @@ Section TypeofMark.
   Definition typeof_bare : expr := EUn UTypeof (EId 1000 false false) true.    (* typeof x *)
   Definition typeof_comma : expr := EUn UTypeof (EId 1000 false false) false.  (* typeof (0, x) *)
 
-  (* the two look the same to the helper but evaluate differently *)
-  Lemma values_look_the_same_refuted_w :
-    values_look_the_same typeof_bare typeof_comma = true
+  (* after fix 71e396b the helper tells them apart, and the conditional is kept *)
+  Lemma values_look_the_same_typeof_mark :
+    values_look_the_same typeof_bare typeof_comma = false
     /\ eval WP [] typeof_bare = Some ([], Val (VStr s_undefined))
     /\ eval WP [] typeof_comma = Some ([], Throw (VStr s_ReferenceError)).
   Proof. repeat split; vm_compute; reflexivity. Qed.
 
-  (* a ? typeof x : typeof (0, x) is rewritten to typeof x: with a falsy the input
-     throws, the output does not *)
-  Lemma mangle_if_typeof_mark_refuted_w :
-    mangle_if ub false false (EId 1 false false) typeof_bare typeof_comma = Some typeof_bare
-    /\ eval WP [] (EIf (EId 1 false false) typeof_bare typeof_comma) = Some ([], Throw (VStr s_ReferenceError))
-    /\ eval WP [] typeof_bare = Some ([], Val (VStr s_undefined)).
-  Proof. repeat split; vm_compute; reflexivity. Qed.
+  Lemma mangle_if_typeof_mark_kept :
+    mangle_if ub false false (EId 1 false false) typeof_bare typeof_comma
+      = Some (EIf (EId 1 false false) typeof_bare typeof_comma).
+  Proof. vm_compute. reflexivity. Qed.
 End TypeofMark.
